@@ -1082,7 +1082,7 @@ def run(ctx):
 
 def _run(ctx):
     _reported.clear()
-    gen(ctx)
+    ctx.guard("regenerate", gen, ctx)
     mods = ["HitenModel.Props.C05"]
     ok = ctx.lean_build(mods)
     if ok:
@@ -1090,12 +1090,12 @@ def _run(ctx):
                                    "HitenModel.Lemmas.REReal", "HitenModel.Core.RE"])
         if ctx.thorough():
             ctx.leanchecker(mods)
-    validate_field(ctx)
+    ctx.guard("validate_field", validate_field, ctx)
     big = ctx.thorough()
-    run_armijo_cases(ctx, 6000 if big else 300)
-    run_plain_cases(ctx, 1200 if big else 80)
-    run_newton_cases(ctx, 5000 if big else 250)
-    operator_checks(ctx, 2000 if big else 100)
+    ctx.guard("armijo_cases", run_armijo_cases, ctx, 6000 if big else 300)
+    ctx.guard("plain_cases", run_plain_cases, ctx, 1200 if big else 80)
+    ctx.guard("newton_cases", run_newton_cases, ctx, 5000 if big else 250)
+    ctx.guard("operator_checks", operator_checks, ctx, 2000 if big else 100)
     ctx.extra["correspondence_cases"] = ctx.corr_cases
     numerics(ctx)
     if ctx.broken:
